@@ -12,7 +12,7 @@ def build(tier, seed):
         mm = member_module("C06", name)
         for sl, pre in load_slices(name, allow_bug=True).items():
             mm.ob(f"model_{sl}_{name}", LOAD_PARAMS, f"return c06_model(MEMBER, MODEL, TREE, LOADERS, lambda: build_data(MEMBER, TREE, {LOAD_ARGS}), (v0 == -2 and p0) or (v1 == -2 and p1) or (v2 == -2 and p2))",
-                  pre=pre, timeout=120 if tier == "quick" else 900, family="generated model loaders (stub fields) x name_mapping recipes",
+                  pre=pre, timeout=120 if tier == "quick" else 300, family="generated model loaders (stub fields) x name_mapping recipes",
                   bounds="slice " + sl + ": presence bits, symbolic stub codes, unknown keys, wrong node/root kinds, list truncation; 6 modes")
 
         mods.append(mm)
